@@ -1,5 +1,5 @@
 SPECIFICATION Spec
-CONSTANTS NV = 2  Val = {1, 2}  Tid = {1, 2, 3}  MaxUpd = 3  Dev = {}
+CONSTANTS NV = 2  Val = {1, 2}  Tid = {1, 2, 3}  MaxUpd = 2  Dev = {}
 INVARIANTS TypeOK ChainRefines StampsRefine WalkIsEntitled
 ACTION_CONSTRAINTS TrimPreserves TrimPreservesWalk
 CHECK_DEADLOCK FALSE
